@@ -13,7 +13,10 @@
 #ifdef HAVE_ASAN
 #include <sanitizer/allocator_interface.h>
 static size_t live_bytes(void){ return __sanitizer_get_current_allocated_bytes(); }
+#include <sanitizer/lsan_interface.h>
+static void leak_report(void){ if(getenv("VERIF_LSAN")) __lsan_do_recoverable_leak_check(); }
 #else
+static void leak_report(void){}
 static size_t live_bytes(void){ return 0; }
 #endif
 static size_t live0;
@@ -51,6 +54,7 @@ int scn_main(int argc,char **argv,const scn_ops *ops){
         if(ops->scn_begin) ops->scn_begin(name);
         for(int li=i+1;li<j;li++){ char *l2=strdup(lines[li]); int n2=scn_split(l2,tok,MAXTOK); if(n2>0&&tok[0][0]!='#') ops->scn_line(tok,n2); free(l2); }
         alarm(0);
+        leak_report();
         ev_begin("End"); ev_s("scn",name); if(ops->scn_end) ops->scn_end(name); ev_i("live",scn_live()); ev_end();
         _exit(0);
       }
